@@ -81,7 +81,7 @@ func drawFrameSpec(e *Env) *FrameSpec {
 	hdr := s.FieldLen
 	switch s.Kind {
 	case fkLengthField:
-		s.Strip = []int{hdr, 0, 1}[e.P(3)]
+		s.Strip = []int{hdr, 0, 1, hdr + 2, hdr + 7}[e.P(5)] // also strip counts that reach into the body
 	case fkPrepender:
 		s.PAdjust = []int{0, 3, -1}[e.P(3)]
 		s.PIncl = e.P(2) == 1
@@ -94,7 +94,7 @@ func drawFrameSpec(e *Env) *FrameSpec {
 		s.Offset = []int{2, 0, 5}[e.P(3)]
 		s.Adjust = []int{0, 2, -1 * (s.Offset + s.FieldLen)}[e.P(3)]
 		hdr = s.Offset + s.FieldLen
-		s.Strip = []int{hdr, 0, s.Offset}[e.P(3)]
+		s.Strip = []int{hdr, 0, s.Offset, hdr + 3}[e.P(4)]
 	case fkDelimiter:
 		s.Delim = []string{"$", "\r\n", "ab", "aab", "--\n", "abac", "aaa"}[e.P(7)]
 		s.StripDelim = e.P(2) == 0
